@@ -267,11 +267,25 @@ class Interp:
             return ("const", "zst", self.f.ty_s(op["ty"]))
         if "tree" in op:
             return self.const_tree(op["tree"])
+        if "tree_ref" in op:
+            return ("rref", self.const_tree(op["tree_ref"]))
         if "unevaluated" in op:
             return ("const", "item", op["unevaluated"])
         return ("const", "other", op["d"])
 
     def const_tree(self, t):
+        if "fnref" in t:
+            fr = t["fnref"]
+            if fr.get("trait") in ("std::ops::Fn", "std::ops::FnMut", "std::ops::FnOnce") and fr.get("self_ty") is not None:
+                # a capture-free closure coerced to a function pointer
+                sty = self.f.ty(fr["self_ty"])
+                if sty.get("k") == "closure" and sty.get("def") in self.f.bodies:
+                    return ("closure", sty["def"], ())
+            key = t["fnref"].get("resolved_full") or t["fnref"]["full"]
+            self.fnrefs[key] = t["fnref"]
+            return ("fn", key)
+        if "data" in t and "str" in t["data"]:
+            return ("const", "str", t["data"]["str"])
         if "adt" in t:
             return ("adt", t["adt"], t["variant"], tuple(self.const_tree(x) for x in t["fields"]))
         if "bool" in t:
